@@ -23,6 +23,7 @@ def mkflow(ix, site, local_types=None, which=0, tab=None, env=None,
     if scalars:
         conv.tab.scalars = [Conv(conv.tab, {}, canon).parse(x) if isinstance(x, str) else x for x in scalars]
     conv.tab.ret_len = _ret_len(ix)
+    conv.tab.records = _records(ix)
     fl = Flow(f, conv)
     fl.conv.erase_broadcast = erase_broadcast
     fl.conv.forward_attrs = forward_attrs
@@ -86,6 +87,46 @@ def new_helpers_of(f, depth=2):
 _KNOWN = []
 
 
+class _Known(frozenset):
+    """the sites of the reviewed tree; a function that has only been MOVED to another module and is imported back
+    under its name where it was (so the reviewed site still resolves to it) counts as the function it was"""
+    def __contains__(self, site):
+        if frozenset.__contains__(self, site):
+            return True
+        return isinstance(site, str) and site in _moved_sites(self)
+
+
+_MOVED = {}
+
+
+def _moved_sites(known):
+    """{current site: reviewed site} for the functions / methods / closures whose reviewed module no longer defines
+    them but still resolves their top-level name (import, re-export) to a definition elsewhere in the analysed tree"""
+    if not _IX:
+        return {}
+    ix = _IX[0]
+    key = id(ix)
+    if key not in _MOVED:
+        _MOVED.clear()
+        out = {}
+        for site in frozenset.__iter__(known):
+            path, _, qual = site.partition('::')
+            if qual.startswith('=') or path not in ix.modules:
+                continue
+            top = qual.split('.')[0]
+            m = ix.modules[path]
+            if top in m.classes or top in m.functions:
+                continue
+            r = ix.resolve_name(m, top)
+            if r is not None and hasattr(r, 'module') and getattr(r, 'name', getattr(r, 'qualname', None)) is not None:
+                rtop = getattr(r, 'qualname', None) if not hasattr(r, 'methods') else r.name
+                if rtop is None:
+                    continue
+                out['%s::%s' % (r.module.relpath, '.'.join([rtop] + qual.split('.')[1:]))] = site
+        _MOVED[key] = out
+    return _MOVED[key]
+
+
 def known_functions():
     """sites of the functions of the reviewed tree (rules/known_functions.json, written by tools/gen_known.py);
     a function that is not listed is new and is analysed at its call sites (sa/flow.py)"""
@@ -93,7 +134,7 @@ def known_functions():
         import json
         import os
         p = os.path.join(os.path.dirname(os.path.dirname(os.path.abspath(__file__))), 'rules', 'known_functions.json')
-        _KNOWN.append(frozenset(json.load(open(p))) if os.path.exists(p) else None)
+        _KNOWN.append(_Known(json.load(open(p))) if os.path.exists(p) else None)
     return _KNOWN[0]
 
 
@@ -664,6 +705,34 @@ def has_guard(rf):
 
 
 _RET_LEN = {}
+
+
+_RECORDS = {}
+
+
+def _records(ix):
+    """class name -> field names, for the NamedTuple classes of the analysed tree whose name is unique in it"""
+    key = id(ix)
+    if key not in _RECORDS:
+        import warnings
+        table, seen = {}, {}
+        for m in ix.modules.values():
+            for c in m.classes.values():
+                seen[c.name] = seen.get(c.name, 0) + 1
+        for m in ix.modules.values():
+            if 'NamedTuple' not in m.source:
+                continue
+            with warnings.catch_warnings():
+                warnings.simplefilter('ignore')
+                tree = ast.parse(m.source)
+            for n in ast.walk(tree):
+                if isinstance(n, ast.ClassDef) and seen.get(n.name) == 1 and \
+                        any((isinstance(b, ast.Name) and b.id == 'NamedTuple') or
+                            (isinstance(b, ast.Attribute) and b.attr == 'NamedTuple') for b in n.bases):
+                    table[n.name] = [st.target.id for st in n.body if isinstance(st, ast.AnnAssign) and isinstance(st.target, ast.Name)]
+        _RECORDS.clear()
+        _RECORDS[key] = table
+    return lambda name: _RECORDS[key].get(name.rsplit('.', 1)[-1] if isinstance(name, str) else name)
 
 
 # names that a call `x.name(...)` may equally resolve to on a library object (dict, list, str, ndarray ...): the
